@@ -585,7 +585,9 @@ func (r *runner) createTasks(ctx context.Context, nodeMap map[string]any, optMap
 		}
 
 		nextTasks = append(nextTasks, &task{
-			ctx:     forwardCheckPoint(setNodeKey(ctx, nodeKey), nodeKey),
+			// a freshly scheduled node starts fresh: the (nested) checkpoint of a resumed run is only
+			// forwarded to the tasks rebuilt from it by restoreTasks.
+			ctx:     clearCheckPoint(setNodeKey(ctx, nodeKey)),
 			nodeKey: nodeKey,
 			call:    call,
 			input:   nodeInput,
